@@ -46,7 +46,9 @@ def main():
     meta = {'property': a.prop, 'name': a.name, 'needs': a.needs, 'ran': []}
     try:
         env = dict(os.environ, PYTHONPATH=wt, PYTHONDONTWRITEBYTECODE='1')
-        demo = os.path.abspath(a.demo)
+        # the script's own directory is sys.path[0]: run a copy placed in the scratch tree
+        demo = os.path.join(wt, '_seed_demo.py')
+        shutil.copy(os.path.abspath(a.demo), demo)
         d0 = sh(['/venv/bin/python', demo], env=env, cwd=wt, timeout=300)
         meta['demo_unchanged'] = {'exit': d0.returncode, 'tail': (d0.stdout + d0.stderr)[-300:]}
         r = sh(f'git -C {wt} apply {os.path.abspath(a.patch)}')
@@ -60,7 +62,21 @@ def main():
                    env=env, cwd=wt, timeout=1800)
             tail = (t.stdout or '').strip().split('\n')[-1]
             failed = set(re.findall(r'FAILED tests/\S+::(\w+)', t.stdout or ''))
-            meta['tests_patched'] = {'summary': tail, 'failed': sorted(failed), 'ok': failed <= FLAKY}
+            # timing tests fail at random on a loaded machine: re-run the failed ones alone (twice)
+            ids = re.findall(r'FAILED (tests/\S+)', t.stdout or '')
+            still = set()
+            for tid in ids:
+                if tid.split('::')[-1] in FLAKY:
+                    continue
+                for _ in range(3):
+                    rr = sh(['/venv/bin/python', '-m', 'pytest', '-q', '-p', 'no:cacheprovider', tid], env=env, cwd=wt,
+                            timeout=600)
+                    if rr.returncode == 0:
+                        break
+                else:
+                    still.add(tid)
+            meta['tests_patched'] = {'summary': tail, 'failed_first_run': sorted(failed),
+                                     'failed_after_rerun': sorted(still), 'ok': not still}
         results = {}
         for chk in [a.prop] + [c for c in a.checks.split(',') if c]:
             p = sh([os.path.join(ROOT, 'check'), chk, '--tier', a.tier], env=dict(os.environ, EDZED_SRC=wt), cwd=ROOT)
